@@ -110,6 +110,9 @@ class BuildDirector(SectionLineParser):
             tol = 0.0
 
         for idx in self.current_molidxs:
+            # only molecules that carry the name of the block (the index range may hold others)
+            if idx not in self.topology.mol_idx_by_name.get(self.current_molname, []):
+                continue
             msg = "Could not find atom {node} in molecule {molname} with index {idx}."
             if nodes[0] not in self.topology.molecules[idx]:
                 raise IOError(msg.format(node=nodes[0], idx=idx, molname=self.current_molname))
@@ -128,7 +131,11 @@ class BuildDirector(SectionLineParser):
         model = tokens.pop(0)
         persistence_length = float(tokens.pop(0))
         start, stop = list(map(int, tokens))
-        specs = PersistenceSpecs(*[model, persistence_length, start, stop, self.current_molidxs])
+        named = self.topology.mol_idx_by_name.get(self.current_molname, [])
+        mol_idxs = np.array([idx for idx in self.current_molidxs if idx in named], dtype=int)
+        if len(mol_idxs) == 0:
+            return
+        specs = PersistenceSpecs(*[model, persistence_length, start, stop, mol_idxs])
         self.topology.persistences.append(specs)
 
     @SectionLineParser.section_parser('template')
